@@ -50,6 +50,9 @@ def parse_transcript(text):
         elif line.startswith('X '):
             t = line.split(' ', 2)
             cur.x.append((t[1], t[2] if len(t) > 2 else ''))
+        elif line.startswith('CRASH'):
+            cur.x.append(('*', 'the crate aborted the whole process (%s): allocation failure, stack overflow or a fatal signal' % line))
+            cur.hang = True
         elif line == 'HANG':
             cur.x.append(('*', 'the crate did not return within the time limit (non-termination)'))
             cur.hang = True
@@ -73,7 +76,7 @@ def build_harness(profile='debug', log=None):
         return None, r.stderr
     return os.path.join(HARNESS, 'target', profile, 'pdsdrive'), ''
 
-def run_harness(binary, casefile, timeout=900, case_ms=5000):
+def run_harness(binary, casefile, timeout=1800, case_ms=30000):
     """runs all cases; a case on which the crate does not return (exit status 3 after a HANG record) is
     recorded and the run resumes with the cases after it"""
     out = []
@@ -101,6 +104,20 @@ def run_harness(binary, casefile, timeout=900, case_ms=5000):
             start += done
             if start >= len(cases) or hangs >= 6:
                 break   # enough non-terminating cases seen: the rest of the file is not run
+            path = casefile + '.rest'
+            with open(path, 'w') as f:
+                for c in cases[start:]:
+                    f.write('\n'.join(c) + '\n')
+            continue
+        if r.returncode < 0 or r.returncode in (101, 134, 137, 139):
+            # the process died (abort on allocation failure, stack overflow, signal) while running the next case
+            done = r.stdout.count('\nEND') + (1 if r.stdout.startswith('END') else 0)
+            hangs += 1
+            head = cases[start + done][0] if start + done < len(cases) else 'CASE ? ?'
+            out.append('%s\nCRASH %d\nEND\n' % (' '.join(head.split()[:3]) + ' ', r.returncode))
+            start += done + 1
+            if start >= len(cases) or hangs >= 6:
+                break
             path = casefile + '.rest'
             with open(path, 'w') as f:
                 for c in cases[start:]:
